@@ -224,6 +224,7 @@ func Judge(r *Run) *Judged {
 	judgeExpectedHits(r, j, cl, by)
 	judgeReplaced(r, j, cl, by)
 	judgeOwnership(r, j, cl)
+	judgeGrowth(r, j)
 	if len(r.LeakStacks) > 0 {
 		j.count("C20", "goroutine-leak")
 		first := r.LeakStacks[0]
